@@ -1358,9 +1358,23 @@ Section ReadWritten.
         exists (rpkt (e, d)). split; [exact (rw_in_r _ Hed)|split; [reflexivity|split; [reflexivity|]]].
         destruct (rw_recv (e, d) Hed) as (rb & _ & _ & R). exact R.
   Qed.
+
+  (** the same for the file read as a recovery file (LoadParityData) *)
+  Theorem read_written_file_vol :
+    exists f, read_file_vol md5 sid out = RFOk sid f /\
+      pf_main f = Some m /\
+      (forall id, In id ids -> assoc_b (pf_fdesc f) id = assoc_b fds id /\ assoc_b (pf_ifsc f) id = assoc_b ifs id) /\
+      (forall e d, assoc_n (pf_recv f) e = Some d <-> In (e, d) recv) /\
+      NoDup (map fst (pf_recv f)).
+  Proof.
+    destruct read_written_file as (f & R1 & _ & Hm & Hfi & Hrecv & Hnd).
+    exists f. split; [exact (read_file_ok_vol md5 sid out sid f R1)|].
+    split; [exact Hm|]. split; [exact Hfi|]. split; [exact Hrecv|exact Hnd].
+  Qed.
 End ReadWritten.
 
 Print Assumptions read_written_file.
+Print Assumptions read_written_file_vol.
 
 (** * STRETCH, part C: Create then Verify *)
 
@@ -1568,7 +1582,7 @@ Section LoadOk.
 
   Lemma load_parity_ok d (E : list N -> N -> Prop) : forall paths acc st, io_sched st = [] ->
     (forall p, In p paths -> exists b sid f, fs_lookup (io_fs st) p = Some b /\
-        read_file md5 (Some (d_setid d)) b = RFOk sid f /\
+        read_file_vol md5 (d_setid d) b = RFOk sid f /\
         pf_main f = Some {| mp_slice := d_slice d; mp_rec := map di_id (d_rec d); mp_nonrec := map di_id (d_nonrec d) |} /\
         Forall (fun ed : N * bytes => N.of_nat (length (snd ed)) = d_slice d) (pf_recv f) /\
         (forall e, In e (map fst (pf_recv f)) <-> E p e)) ->
@@ -1585,7 +1599,7 @@ Section LoadOk.
       { apply existsb_false_of_Forall. revert Hlen. apply Forall_impl. intros ed Hed. rewrite Hed, N.eqb_refl. reflexivity. }
       rewrite EX.
       assert (Hall' : forall p', In p' r -> exists b' sid' f', fs_lookup (io_fs st1) p' = Some b' /\
-                read_file md5 (Some (d_setid d)) b' = RFOk sid' f' /\
+                read_file_vol md5 (d_setid d) b' = RFOk sid' f' /\
                 pf_main f' = Some {| mp_slice := d_slice d; mp_rec := map di_id (d_rec d); mp_nonrec := map di_id (d_nonrec d) |} /\
                 Forall (fun ed : N * bytes => N.of_nat (length (snd ed)) = d_slice d) (pf_recv f') /\
                 (forall e, In e (map fst (pf_recv f')) <-> E p' e)).
@@ -2086,8 +2100,8 @@ Section CreateVerify.
       apply in_map_iff in Hpv. destruct Hpv as ([p' vb] & Ep & Hv). cbn [fst] in Ep. subst p'.
       destruct (Forall2_in_r _ _ _ F2 _ Hv) as (ic & Hic & sid' & vb' & EWv & Ev). injection Ev as -> <-.
       destruct (layout_bounds ic Hic) as [Hc Hb]. destruct (volrecv_ok (fst ic) (snd ic) Hb) as [V1 V2].
-      destruct (read_written_file md5 md5_len CLIENT_ID m fds ifs _ sid' vb EWv (ww_of _ V1 V2))
-        as (fv & Rv & _ & Hmv & _ & Hrv & Hndv).
+      destruct (read_written_file_vol md5 md5_len CLIENT_ID m fds ifs _ sid' vb EWv (ww_of _ V1 V2))
+        as (fv & Rv & Hmv & _ & Hrv & Hndv).
       assert (Esid : sid' = sid).
       { rewrite (rw_sid md5 _ _ _ _ _ _ _ EWv), (rw_sid md5 _ _ _ _ _ _ _ EW). reflexivity. }
       exists vb, sid', fv. rewrite Hf3. split; [apply Lvol; exact Hv|].
